@@ -313,6 +313,14 @@ def body_pixels(ctx, case):
     b_in = base + shift                 # non-negative coordinates, band inside the canvas
     ref = crop_image(ctx, eng, canvas, b_in.copy(), list(case["heights"]))
     ctx.check(ref.shape[0] == case["line_height"] and ref.shape[1] == coords.shape[1], "crop_fell_back_to_blank", lambda: "shape %r; " % (ref.shape,) + desc())
+    # the two documented return modes hand back the same crop, together with the sampling map resp. its inverse
+    fw = ctx.must("crop_raises", eng.crop, canvas, b_in.copy(), list(case["heights"]), False, True)
+    ctx.check(isinstance(fw, tuple) and len(fw) == 2 and np.array_equal(fw[0], ref) and np.array_equal(
+        np.asarray(fw[1]), np.asarray(eng.get_crop_inputs(b_in.copy(), list(case["heights"]), case["line_height"]))),
+        "crop_with_forward_mapping_differs_from_plain_crop", desc)
+    if ref.shape[1] <= 400:
+        bw = ctx.must("crop_raises", eng.crop, canvas, b_in.copy(), list(case["heights"]), True)
+        ctx.check(isinstance(bw, tuple) and len(bw) == 3 and np.array_equal(bw[0], ref), "crop_with_reverse_mapping_differs_from_plain_crop", desc)
     # a crop stays what it was when the same cropper crops the next line (all lines of a page are cropped before any is
     # recognised): the same line on the inverted page has a crop of identical shape
     kept = ref.copy()
